@@ -425,8 +425,14 @@ func (e *Explorer) done(r *pathResult) {
 		}
 		e.forkSites[k] += int64(v)
 	}
-	if len(r.witnesses) > 0 && e.stopOnViol {
-		e.stop = true
+	if e.stopOnViol {
+		// the vacuity-twin run stops at the first path that reaches the appended assertion;
+		// violations of the harness's own assertions (known findings, say) do not end it
+		for _, wt := range r.witnesses {
+			if wt.Msg == "vacuity twin" {
+				e.stop = true
+			}
+		}
 	}
 	if len(e.witnessClasses) >= 40 {
 		// enough distinct counterexample classes: exploring (and replaying) more adds nothing
